@@ -9,6 +9,13 @@
      the trace hook: traced components = model(traced reads); PS/HP of every phased call in the output VCF =
      1 + smallest position connected (by the traced reads, plus the master block of positions homozygous in a
      family member, computed from the INPUT VCF) to it; two phased variants share a set iff connected.
+(iii) the glue between read selection and the writer (Model/C03Pipe.lean): in-process `merge_readsets`, `ReadList.write`,
+     `find_largest_component`; whole runs of harness/gen/c03_pipe.py (several chromosomes with different data, several
+     families, multi-sample runs without --ped, decorated VCFs, --chromosome/--sample, --output-read-list, ...): per trace
+     record the read set handed to the solver = union of the members' SELECTED reads, accessible positions, family stage
+     (`c03.family`), read-list rows; per run the composed model `c03.pipeline` (selected reads -> family stage -> C04 writer ->
+     C09 decoders) = decoded phase statement of every call of the output VCF; oracle (BFS over the selected reads) on the
+     output VCF and the read list.
 """
 import json, os, shutil
 
@@ -21,11 +28,14 @@ MANIFEST = dict(
          "model: component equality <-> connectivity by reads (+ master block), component = leftmost connected "
          "position, PS = that position + 1, master block merges all touched components; the model is tied to the "
          "working tree by running the real functions in-process and `whatshap phase` with the trace hook, and an "
-         "independent BFS oracle is evaluated on the implementation's output (trace and output VCF)",
+         "independent BFS oracle is evaluated on the implementation's output (trace and output VCF); deepening: a model of "
+         "phase.py between read selection and the writer (merge_readsets, accessible positions, per-family / per-chromosome "
+         "dicts, read list) composed with the C04 writer and C09 decoder models, with end-to-end theorems from the selected "
+         "reads to the decoded phase set of every written call, tied to whole CLI runs (`c03.pipeline`)",
     design_ref="DESIGN.md §5 C03",
     note="trusted: Lean kernel, axioms ⊆ {propext, Classical.choice, Quot.sound}; hand-written model (differential "
-         "correspondence: quick ~3 000 in-process structures + ~16 CLI runs); allele detection and read selection are "
-         "taken as given (the reads 'used for phasing' are the traced selected reads)",
+         "correspondence: quick ~4 200 in-process cases + ~48 CLI runs); allele detection, read selection and the solver's "
+         "super-reads are taken as given (trace hook); --merge-reads is outside (F85)",
     technique="Lean 4 proof (union-find invariant: root = least element of the class, kernel of root = equivalence "
               "closure of the merged pairs) + differential correspondence + BFS oracle on CLI output",
 )
@@ -493,6 +503,488 @@ def check_cli(ctx, batch, case, samples, recs, inrecs, trace):
 
 
 # ------------------------------------------------------------------------------------------------
+# glue between read selection and the writer: merge_readsets, ReadList.write, find_largest_component (in-process)
+# ------------------------------------------------------------------------------------------------
+
+def _mk_read(rd):
+    from whatshap.core import Read
+    r = Read(rd["name"], 60, rd["source_id"], rd["sample_id"])
+    for p, a, q in rd["variants"]:
+        r.add_variant(p, a, q)
+    return r
+
+
+def _dump(read):
+    return {"name": read.name, "source_id": read.source_id, "sample_id": read.sample_id,
+            "variants": [[v.position, v.allele, v.quality] for v in read]}
+
+
+def _read_key(rd):
+    return (rd["name"], rd["source_id"], rd["sample_id"], tuple(map(tuple, rd["variants"])))
+
+
+def gen_merge_case(rng):
+    n_sets = rng.choice([1, 1, 2, 3, 4])
+    universe = sorted(rng.sample(range(0, 60), rng.randrange(2, 12)))
+    readsets, k = [], 0
+    for si in range(n_sets):
+        rs = []
+        for _ in range(rng.randrange(0, 6)):
+            k += 1
+            ps = sorted(rng.sample(universe, rng.randrange(0 if rng.random() < 0.1 else 1, min(6, len(universe)) + 1)))
+            r = rng.random()
+            if r < 0.04 and len(ps) >= 2:
+                ps = ps[::-1]                       # not sorted -> AssertionError
+            elif r < 0.07 and ps:
+                ps = ps + [ps[-1]]                  # repeated position: is_sorted() is strict -> AssertionError
+            rs.append({"name": f"r{k}", "source_id": rng.choice([0, 0, 1]), "sample_id": si,
+                       "variants": [[p, rng.randrange(2), rng.choice([0, 10, 30])] for p in ps]})
+        readsets.append(rs)
+    r = rng.random()
+    flat = [(i, j) for i, rs in enumerate(readsets) for j in range(len(rs))]
+    if r < 0.15 and len(flat) >= 2:
+        (i, j), (i2, j2) = rng.sample(flat, 2)
+        if i != i2:                                 # the same name in two members' read sets
+            readsets[i2][j2]["name"] = readsets[i][j]["name"]
+            if rng.random() < 0.7:
+                readsets[i2][j2]["source_id"] = readsets[i][j]["source_id"]     # -> RuntimeError
+    return {"kind": "merge", "readsets": readsets}
+
+
+def do_merge(ctx, batch, case):
+    from whatshap.core import ReadSet
+    from whatshap.cli.phase import merge_readsets
+    ctx.evaluated()
+    d = {}
+    for i, rs in enumerate(case["readsets"]):
+        x = ReadSet()
+        for rd in rs:
+            x.add(_mk_read(rd))
+        d[f"s{i}"] = x
+    try:
+        res = merge_readsets(d)
+        impl = {"ok": [_dump(r) for r in res]}
+    except AssertionError:
+        impl = {"err": "AssertionError"}
+    except RuntimeError:
+        impl = {"err": "RuntimeError"}
+    flat = [rd for rs in case["readsets"] for rd in rs]
+    ctx.dist("merge_outcome", impl.get("err", "ok")); ctx.dist("merge_n_sets", len(case["readsets"]))
+    if "ok" in impl:
+        # predicate: the reads used for phasing are exactly the selected reads of all members; sorted by first position
+        if sorted(map(_read_key, impl["ok"])) != sorted(map(_read_key, flat)):
+            ctx.fail("merge_readsets: the merged read set is not the union of the members' read sets", case, key="all-reads-not-union-of-selected")
+        keys = [(-1 if not rd["variants"] else rd["variants"][0][0]) for rd in impl["ok"]]
+        if keys != sorted(keys):
+            ctx.fail("merge_readsets: result is not sorted by first position", case, key="all-reads-not-sorted")
+        if len(flat) >= 2 and len(case["readsets"]) >= 2:
+            ctx.nontrivial(json.dumps(case, sort_keys=True))
+    else:
+        ctx.nontrivial(json.dumps(case, sort_keys=True))
+
+    def cb(req, ans, impl=impl, case=case):
+        if "ok" in ans and "ok" in impl:
+            mk = [(-1 if not rd["variants"] else rd["variants"][0][0]) for rd in ans["ok"]]
+            if sorted(map(_read_key, ans["ok"])) != sorted(map(_read_key, impl["ok"])) or mk != sorted(mk):
+                ctx.disagree("c03.merge", case, impl, ans)
+        elif ans != impl:
+            ctx.disagree("c03.merge", case, impl, ans)
+    batch.add({"op": "c03.merge", "readsets": case["readsets"]}, cb)
+
+
+def gen_readlist_case(rng):
+    n_members = rng.choice([1, 1, 2, 3])
+    members = [[f"m{i}", i] for i in range(n_members)]
+    universe = sorted(rng.sample(range(0, 80), rng.randrange(3, 14)))
+    # a plausible component map: contiguous runs named by their first position
+    comps, cur = [], None
+    for p in universe:
+        if cur is None or rng.random() < 0.35:
+            cur = p
+        comps.append([p, cur])
+    sample_comps = [[m[0], [list(c) for c in comps]] for m in members]
+    reads = []
+    for k in range(rng.randrange(0, 8)):
+        ps = sorted(rng.sample(universe, rng.randrange(1, min(5, len(universe)) + 1)))
+        reads.append({"name": f"r{k}", "source_id": rng.choice([0, 1]), "sample_id": rng.randrange(n_members),
+                      "variants": [[p, rng.randrange(2), rng.choice([0, 7, 30])] for p in ps]})
+    bip = [rng.randrange(2) for _ in reads]
+    r = rng.random()
+    if r < 0.06:
+        bip = bip + [0] if rng.random() < 0.5 else bip[:-1] if bip else [0]
+    elif r < 0.12 and reads:
+        rng.choice(reads)["sample_id"] = n_members + 1               # unknown numeric id
+    elif r < 0.18 and reads:
+        sample_comps.pop(rng.randrange(len(sample_comps)))           # a member without components
+    elif r < 0.24 and reads:
+        x = rng.choice(reads); first = x["variants"][0][0]
+        for sc in sample_comps:
+            sc[1] = [c for c in sc[1] if c[0] != first]              # first position without component
+    elif r < 0.28 and reads:
+        rng.choice(reads)["variants"] = []                           # read[0] of an empty read
+    return {"kind": "readlist", "members": members, "sample_comps": sample_comps, "reads": reads, "bipartition": bip}
+
+
+def parse_read_list(path):
+    rows = []
+    with open(path) as f:
+        header = f.readline()
+        for line in f:
+            c = line.rstrip("\n").split("\t")
+            rows.append([c[0], int(c[1]), c[2], int(c[3]), int(c[4]), int(c[5]), int(c[6]), int(c[7])])
+    return header, rows
+
+
+def expected_readlist(case):
+    """what ReadList.write has to do, written down independently of the code and of the Lean model"""
+    if len(case["reads"]) != len(case["bipartition"]):
+        return {"err": "AssertionError"}
+    names = dict((i, n) for n, i in case["members"])
+    comps = {s: {p: c for p, c in cs} for s, cs in case["sample_comps"]}
+    rows = []
+    for rd, hap in zip(case["reads"], case["bipartition"]):
+        if rd["sample_id"] not in names or names[rd["sample_id"]] not in comps:
+            return {"err": "KeyError"}
+        if not rd["variants"]:
+            return {"err": "IndexError"}
+        first, last = rd["variants"][0][0], rd["variants"][-1][0]
+        c = comps[names[rd["sample_id"]]]
+        if first not in c:
+            return {"err": "KeyError"}
+        rows.append([rd["name"], rd["source_id"], names[rd["sample_id"]], c[first] + 1, hap, len(rd["variants"]), first + 1, last + 1])
+    return {"ok": rows}
+
+
+def do_readlist(ctx, batch, case):
+    from whatshap.core import ReadSet, NumericSampleIds
+    from whatshap.cli.phase import ReadList
+    ctx.evaluated()
+    nsi = NumericSampleIds()
+    for name, i in case["members"]:
+        assert nsi[name] == i
+    rs = ReadSet()
+    for rd in case["reads"]:
+        rs.add(_mk_read(rd))
+    comps = {s: {p: c for p, c in cs} for s, cs in case["sample_comps"]}
+    path = os.path.join(ctx.workdir(), "readlist.tsv")
+    try:
+        with ReadList(path) as rl:
+            rl.write(rs, list(case["bipartition"]), comps, nsi)
+        impl = {"ok": parse_read_list(path)[1]}
+    except (AssertionError, KeyError, IndexError) as e:
+        impl = {"err": type(e).__name__}
+    finally:
+        if os.path.exists(path):
+            os.remove(path)
+    ctx.dist("readlist_outcome", impl.get("err", "ok"))
+    want = expected_readlist(case)
+    if impl != want:
+        ctx.fail(f"ReadList.write gave {json.dumps(impl)[:300]}, expected {json.dumps(want)[:300]} (one row per read, phase set = 1 + "
+                 f"component of the read's first variant)", case, key="read-list-row")
+    if "err" in impl or len(case["reads"]) >= 2:
+        ctx.nontrivial(json.dumps(case, sort_keys=True))
+
+    def cb(req, ans, impl=impl, case=case):
+        if ans != impl:
+            ctx.disagree("c03.readlist", case, impl, ans)
+    batch.add({"op": "c03.readlist", "members": case["members"], "sample_comps": case["sample_comps"], "reads": case["reads"],
+               "bipartition": case["bipartition"]}, cb)
+
+
+def do_largest(ctx, batch, comps, case):
+    """find_largest_component (only logged by whatshap): a sorted list of positions that is one of the components and
+    has the maximal size; size = model"""
+    from whatshap.cli.phase import find_largest_component
+    res = find_largest_component({p: c for p, c in comps})
+    blocks = {}
+    for p, c in comps:
+        blocks.setdefault(c, []).append(p)
+    best = max([len(b) for b in blocks.values()] + [0])
+    if list(res) != sorted(res) or len(res) != best or (res and sorted(blocks[dict(map(tuple, comps))[res[0]]]) != list(res)):
+        ctx.fail(f"find_largest_component returned {list(res)}, not a largest component (size {best})", case, key="largest-component")
+
+    def cb(req, ans, n=len(res), case=case):
+        if ans.get("size") != n:
+            ctx.disagree("c03.largest", case, n, ans)
+    batch.add({"op": "c03.largest", "comps": [list(c) for c in comps]}, cb)
+
+
+# ------------------------------------------------------------------------------------------------
+# whole runs: from the selected reads of every (chromosome, family) to the phase sets in the output VCF / read list
+# ------------------------------------------------------------------------------------------------
+
+def decode_call(call, fmt):
+    """independent decoder of one call in the `c04_records.model_record` shape: (block, alleles) or None"""
+    gt, fields = call["gt"], dict((k, v) for k, v in call["fields"])
+    if gt is None or len(gt) < 2 or any(a is None for a in gt):
+        return None
+    if call["phased"] and len(set(gt)) > 1:
+        ps = fields.get("PS") if "PS" in fmt else 0
+        return (ps if isinstance(ps, int) else None, list(gt))
+    hp = fields.get("HP")
+    if isinstance(hp, list) and hp and len(hp) == len(gt) and len({b for b, _ in hp}) == 1:
+        order = [h - 1 for _, h in hp]
+        if sorted(order) == list(range(len(gt))):
+            return (hp[0][0], [gt[order.index(i)] for i in range(len(gt))])
+    return None
+
+
+def eligible_first(recs, only_snvs):
+    """indices of the records neither writer nor reader skip: exactly one ALT, not symbolic-free requirement (a symbolic
+    ALT counts as an ordinary biallelic record for the writer), an SNV under --only-snvs, and the first such record at
+    its (chromosome, position)"""
+    seen, out = set(), set()
+    for i, r in enumerate(recs):
+        if len(r["alts"]) != 1:
+            continue
+        if only_snvs and not (len(r["ref"]) == 1 and len(r["alts"][0]) == 1):
+            continue
+        k = (r["chrom"], r["pos"])
+        if k in seen:
+            continue
+        seen.add(k); out.add(i)
+    return out
+
+
+def run_pipe(ctx, batch, case):
+    from harness.gen import sim, c03_pipe as P, c04_records as R
+    p = case["params"]
+    d = os.path.join(ctx.workdir(), "pipe")
+    shutil.rmtree(d, ignore_errors=True)
+    try:
+        sc, paths, args, extra = P.build(case, d)
+        out = os.path.join(d, "out.vcf")
+        rc, so, se, trace = sim.whatshap(["phase", "-o", out] + args + [paths["vcf"], paths["bam"]] + extra, ctx.overlay,
+                                         trace=os.path.join(d, "trace.jsonl"))
+        ctx.evaluated()
+        ctx.dist("pipe_layout", p["layout"]); ctx.dist("pipe_n_contigs", p["n_contigs"]); ctx.dist("pipe_tag", p["tag"])
+        ctx.dist("pipe_cap", p["cap"])
+        ctx.dist("pipe_options", "".join(ch for ch, k in (("D", "distrust"), ("H", "include_hom"), ("G", "no_genetic"), ("S", "only_snvs"),
+                                                           ("C", "chrom_sel"), ("s", "sample_sel"), ("L", "read_list"), ("I", "ignore_rg"),
+                                                           ("M", "merge_reads"), ("V", "phased_vcf_input"), ("N", "dup_names"),
+                                                           ("d", "decor")) if p[k]) or "-")
+        if rc != 0:
+            last = (se.strip().splitlines() or ["?"])[-1][:200]
+            if "duplicate read name" in se and p["dup_names"]:
+                # modelled (`PErr.duplicateRead`): two members of one family have a selected read with the same name and source
+                ctx.observe("RuntimeError 'ReadSet::add: duplicate read name' when two members of a family carry a read of the same name")
+                ctx.dist("pipe_outcome", "duplicate-read-name")
+                return
+            if "Traceback" in se or rc < 0:
+                ctx.fail(f"whatshap phase crashed: {last}", case, key="cli-crash")
+            else:
+                ctx.observe("clean command-line error: " + last[:90])
+            ctx.dist("pipe_outcome", "error")
+            return
+        ctx.dist("pipe_outcome", "ok")
+        _, samples, rin = R.load_vcf(paths["vcf"])
+        _, osamples, rout = R.load_vcf(out)
+        if osamples != samples or len(rin) != len(rout):
+            ctx.fail("output VCF has other samples / another number of records than the input", case, key="pipe-output-shape")
+            return
+        read_rows = parse_read_list(paths["read_list"])[1] if p["read_list"] else None
+        check_pipe(ctx, batch, case, sc, samples, rin, rout, trace, se, read_rows)
+    finally:
+        shutil.rmtree(d, ignore_errors=True)
+
+
+def check_pipe(ctx, batch, case, sc, samples, rin, rout, trace, stderr, read_rows):
+    from harness.gen import c04_records as R
+    import re
+    p = case["params"]
+    elig = eligible_first(rin, p["only_snvs"])
+    by_chrom = {}
+    for t in trace:
+        by_chrom.setdefault(t["chromosome"], []).append(t)
+    min_rin = [R.model_record(r, samples) for r in rin]
+    min_rout = [R.model_record(r, samples) for r in rout]
+    largest_logged = [int(x) for x in re.findall(r"Largest block contains (\d+) variants", stderr)]
+    with_largest = [t for t in trace if t["overall_components"]]
+    rl_pos = 0
+    fam_json = {}
+    n_sets_total, split_any, dropped_any = 0, False, False
+    for ti, t in enumerate(trace):
+        fam, ids, chrom = t["family"], t["numeric_sample_ids"], t["chromosome"]
+        acc = t["accessible_positions"]
+        selected = [t["candidates"][s]["selected"] for s in fam]
+        flat = [rd for rs in selected for rd in rs]
+        multi = len(fam) > 1 and t["genetic_haplotyping"]
+        # ---- the reads used for phasing = the selected reads of all members (merge_readsets)
+        if sorted(map(_read_key, t["all_reads"])) != sorted(map(_read_key, flat)):
+            ctx.fail(f"{chrom} {fam}: the read set handed to the solver is not the union of the members' selected reads", case,
+                     key="all-reads-not-union-of-selected")
+        want_acc = sorted({v[0] for rd in flat for v in rd["variants"]} | (set(t["homozygous_positions"]) if multi else set()))
+        if want_acc != acc:
+            ctx.fail(f"{chrom} {fam}: accessible positions are not the positions covered by the selected reads"
+                     f"{' plus the homozygous positions' if multi else ''}", case, key="accessible-positions")
+        supers = [[ids[s], [[a[0], a[1], b[1]] for a, b in zip(t["superreads"][s][0]["variants"], t["superreads"][s][1]["variants"])]]
+                  for s in fam]
+        fj = {"members": [[s, ids[s]] for s in fam], "selected": selected, "homozygous": t["homozygous_positions"], "superreads": supers}
+        fam_json.setdefault(chrom, []).append(fj)
+        # ---- correspondence: family stage
+        n_reads = len(t["all_reads"])
+        rows_here = None
+        if read_rows is not None:
+            rows_here = read_rows[rl_pos:rl_pos + n_reads]; rl_pos += n_reads
+
+        def cb(req, ans, t=t, rows_here=rows_here, flat=flat):
+            ctx.validated()
+            if "err" in ans or "error" in ans:
+                ctx.disagree("c03.family(trace)", {"kind": "pipe-family", "case": case, "request": req}, "ok", ans); return
+            impl = {"accessible": t["accessible_positions"], "comps": sorted([int(a), int(b)] for a, b in t["overall_components"]),
+                    "reads": sorted(map(_read_key, t["all_reads"]))}
+            mod = {"accessible": ans["accessible"], "comps": ans["comps"], "reads": sorted(map(_read_key, ans["all_reads"]))}
+            if impl != mod:
+                ctx.disagree("c03.family(trace)", {"kind": "pipe-family", "case": case, "request": req},
+                             {k: v for k, v in impl.items() if v != mod[k]}, {k: v for k, v in mod.items() if v != impl[k]})
+        req = {"op": "c03.family", "distrust": t["distrust_genotypes"], "genetic": t["genetic_haplotyping"], "family": fj}
+        batch.add(req, cb)
+        if rows_here is not None and t["partitioning"] is not None:
+            # the read list of this family: the model's ReadList.write on the reads in the solver's order
+            def cbr(req, ans, rows_here=rows_here):
+                if ans != {"ok": rows_here}:
+                    ctx.disagree("c03.readlist(trace)", {"kind": "pipe-family", "case": case, "request": req}, rows_here, ans)
+            batch.add({"op": "c03.readlist", "members": fj["members"], "reads": t["all_reads"], "bipartition": t["partitioning"],
+                       "sample_comps": [[s, [list(c) for c in t["overall_components"]]] for s in fam]}, cbr)
+        # ---- oracle: components from the SELECTED reads
+        reads = [[rd["sample_id"], [v[0] for v in rd["variants"]]] for rd in flat]
+        sidx = {s: samples.index(s) for s in fam}
+        het = None
+        ocase = {"accessible": acc, "reads": reads, "distrust": t["distrust_genotypes"], "fam_size": len(fam),
+                 "genetic": t["genetic_haplotyping"], "homozygous": t["homozygous_positions"], "superreads": supers}
+        if t["distrust_genotypes"]:
+            master, het = oc_params(ocase)
+        elif multi:
+            master = []
+            for i, r in enumerate(rin):
+                if i in elig and r["chrom"] == chrom and r["pos"] in set(acc):
+                    for s in fam:
+                        gt = r["calls"][sidx[s]].get("GT")
+                        if gt is not None and gt[0] is not None and None not in gt[0] and len(set(gt[0])) == 1:
+                            master.append(r["pos"]); break
+            master = sorted(set(master))
+        else:
+            master = None
+        left = bfs_leftmost(acc, spec_blocks(acc, reads, master, het))
+        # read list rows of this family: phase set = 1 + leftmost position connected to the read's first variant
+        if rows_here is not None:
+            inv = {v: k for k, v in ids.items()}
+            for rd, hap, row in zip(t["all_reads"], t["partitioning"] or [], rows_here):
+                first, last = rd["variants"][0][0], rd["variants"][-1][0]
+                want = [rd["name"], rd["source_id"], inv.get(rd["sample_id"]), left.get(first, -2) + 1, hap, len(rd["variants"]), first + 1, last + 1]
+                if row != want:
+                    ctx.fail(f"{chrom}: read list row {row} should be {want} (phase set = 1 + leftmost variant connected to the read's first "
+                             f"variant by the reads used for phasing)", case, key="read-list-row")
+                    break
+            if len(rows_here) != n_reads:
+                ctx.fail(f"{chrom} {fam}: read list has {len(rows_here)} rows for {n_reads} reads used for phasing", case, key="read-list-row")
+        sets_here = set()
+        for s in fam:
+            sr = t["superreads"][s]
+            sr_al = {a[0]: (a[1], b[1]) for a, b in zip(sr[0]["variants"], sr[1]["variants"])}
+            items = []
+            for i, r in enumerate(min_rout):
+                if rin[i]["chrom"] != chrom:
+                    continue
+                ph = decode_call(r["calls"][sidx[s]], r["format"])
+                pos = r["pos"]
+                al = sr_al.get(pos)
+                is_het = al is not None and sorted(al) == [0, 1]
+                if ph is None:
+                    if i in elig and is_het and pos in left:
+                        ctx.fail(f"sample {s}: {chrom}:{pos + 1} has heterozygous super-read alleles {al} and a component but is not phased "
+                                 f"in the output", case, key="het-accessible-not-phased")
+                    continue
+                if i not in elig:
+                    continue        # a phase mark on a record the writer skips is C04's subject (stale-mark)
+                if not is_het:
+                    ctx.fail(f"sample {s}: {chrom}:{pos + 1} is phased in the output although its super-read alleles are {al}", case,
+                             key="phased-but-superread-not-het")
+                if pos not in left:
+                    ctx.fail(f"sample {s}: variant at {chrom}:{pos + 1} is phased (set {ph[0]}) but is not an accessible position", case,
+                             key="phased-but-not-accessible")
+                    continue
+                if ph[0] != left[pos] + 1:
+                    ctx.fail(f"sample {s}: variant at {chrom}:{pos + 1} has phase set {ph[0]}; the leftmost variant connected to it by the "
+                             f"selected reads of {fam}{' and the master block' if master else ''} is at {left[pos] + 1}", case,
+                             key="ps-not-leftmost-connected")
+                    break
+                items.append((pos, ph[0]))
+            for a in range(len(items)):
+                for b in range(a + 1, len(items)):
+                    (p1, s1), (p2, s2) = items[a], items[b]
+                    if (s1 == s2) != (left[p1] == left[p2]):
+                        ctx.fail(f"sample {s}: {chrom}:{p1 + 1} and {chrom}:{p2 + 1} are {'in the same' if s1 == s2 else 'in different'} "
+                                 f"phase set(s) but are {'' if left[p1] == left[p2] else 'not '}connected by selected reads", case,
+                                 key="same-set-iff-connected")
+                        break
+            sets_here |= {x[1] for x in items}
+        n_sets_total += len(sets_here)
+        cand = [[ids[s], [v[0] for v in rd["variants"]]] for s in fam for rd in t["candidates"][s]["reads"]]
+        ncand = len(set(bfs_leftmost(acc, spec_blocks(acc, cand, master, het)).values()))
+        split_any |= len(set(left.values())) > ncand
+        dropped_any |= len(cand) > len(reads)
+        comps = {}
+        for q, c in left.items():
+            comps.setdefault(c, []).append(q)
+        if (len(comps) >= 2 and any(len(v) >= 2 for v in comps.values())) or (master and len(master) >= 2):
+            ctx.nontrivial(json.dumps([chrom, acc, reads, master, sorted(sets_here)]))
+        if t["overall_components"]:
+            do_largest(ctx, batch, [list(c) for c in t["overall_components"]], {"kind": "largest", "comps": t["overall_components"]})
+    if read_rows is not None and rl_pos != len(read_rows):
+        ctx.fail(f"read list has {len(read_rows)} rows, the runs used {rl_pos} reads", case, key="read-list-row")
+    # ---- no phase set without reads used for phasing: a call of a sample / chromosome that was not phased in this run
+    #      (excluded by --chromosome / --sample) carries exactly the phase statement of the input
+    phased_here = {(t["chromosome"], s) for t in trace for s in t["family"]}
+    for i, (ri, ro) in enumerate(zip(min_rin, min_rout)):
+        for si, s in enumerate(samples):
+            if (rin[i]["chrom"], s) in phased_here:
+                continue
+            a, b = decode_call(ri["calls"][si], ri["format"]), decode_call(ro["calls"][si], ro["format"])
+            if b != a:
+                ctx.fail(f"sample {s} at {rin[i]['chrom']}:{rin[i]['pos'] + 1} carries the phase statement {b} in the output, {a} in the "
+                         f"input, although the sample was not phased on that chromosome in this run (no read of it was used)", case,
+                         key="phase-set-without-reads")
+                break
+    # ---- the logged size of the largest block per family = size of a largest component
+    if len(largest_logged) == len(with_largest):
+        for n, t in zip(largest_logged, with_largest):
+            sizes = {}
+            for _, c in t["overall_components"]:
+                sizes[c] = sizes.get(c, 0) + 1
+            if n != max(sizes.values()):
+                ctx.fail(f"log says the largest block has {n} variants, the largest component has {max(sizes.values())}", case, key="largest-component")
+    # ---- correspondence: the whole run through the composed model (selected reads -> written records -> decoded phase sets)
+    chroms = []
+    idx_of = []
+    for chrom, idxs in R.chrom_blocks(rin):
+        chroms.append({"name": chrom, "families": fam_json.get(chrom, []), "records": [min_rin[i] for i in idxs]})
+        idx_of.append(idxs)
+    cfg = {"tag": p["tag"], "onlySnvs": p["only_snvs"], "distrust": p["distrust"], "genetic": not p["no_genetic"], "header": samples,
+           "chromosomes": sc["sel_c"] or []}
+
+    def cbp(req, ans):
+        if "chroms" not in ans:
+            ctx.disagree("c03.pipeline", case, "ok", ans); return
+        for idxs, mrecs in zip(idx_of, ans["chroms"]):
+            for i, m in zip(idxs, mrecs):
+                impl = [decode_call(c, min_rout[i]["format"]) for c in min_rout[i]["calls"]]
+                mod = [None if ph is None else (ph["block"], ph["alleles"]) for ph in m["phases"]]
+                impl = [None if x is None else (x[0], list(x[1])) for x in impl]
+                if impl != mod or min_rout[i]["format"] != m["format"]:
+                    ctx.disagree("c03.pipeline", case, {"record": i, "chrom": rin[i]["chrom"], "pos": rin[i]["pos"], "phases": impl,
+                                                        "format": min_rout[i]["format"]}, {"phases": mod, "format": m["format"]})
+                    return
+    batch.add({"op": "c03.pipeline", "cfg": cfg, "chroms": chroms}, cbp)
+    ctx.dist("pipe_n_trace_records", min(len(trace), 12)); ctx.dist("pipe_n_phase_sets", min(n_sets_total, 20))
+    ctx.dist("pipe_selection_split_components", split_any); ctx.dist("pipe_reads_dropped_by_selection", dropped_any)
+    ctx.dist("pipe_chromosomes_phased", len(by_chrom))
+    ctx.dist("pipe_skipped_records", min(len(rin) - len(elig), 10))
+    if len(ctx.samples) < 6:
+        ctx.sample({"pipe_params": p, "n_trace_records": len(trace), "phase_sets": n_sets_total})
+
+
+# ------------------------------------------------------------------------------------------------
 
 def run_case(ctx, batch, case):
     k = case.get("kind")
@@ -504,6 +996,16 @@ def run_case(ctx, batch, case):
         do_oc(ctx, batch, case["instance"]); run_cli(ctx, batch, case["cli"])
     elif k == "cli":
         run_cli(ctx, batch, case["cli"] if "cli" in case else case)
+    elif k == "merge":
+        do_merge(ctx, batch, case)
+    elif k == "readlist":
+        do_readlist(ctx, batch, case)
+    elif k == "largest":
+        do_largest(ctx, batch, [list(c) for c in case["comps"]], case)
+    elif k == "pipe":
+        run_pipe(ctx, batch, case)
+    elif k == "pipe-family":
+        run_pipe(ctx, batch, case["case"])
 
 
 def run(ctx):
@@ -519,6 +1021,10 @@ def run(ctx):
         do_fc(ctx, batch, gen_fc_case(rng))
     for _ in range((800 if ctx.quick else 10000) * ctx.scale):
         do_oc(ctx, batch, gen_oc_case(rng))
+    for _ in range((600 if ctx.quick else 8000) * ctx.scale):
+        do_merge(ctx, batch, gen_merge_case(rng))
+    for _ in range((600 if ctx.quick else 8000) * ctx.scale):
+        do_readlist(ctx, batch, gen_readlist_case(rng))
     batch.flush()
     if not ctx.quick:
         exhaustive(ctx, batch)
@@ -531,6 +1037,10 @@ def run(ctx):
     modes = modes * ctx.scale
     for m in modes:
         run_cli(ctx, batch, gen_cli_case(rng, m))
+    batch.flush()
+    from harness.gen import c03_pipe as P
+    for _ in range((20 if ctx.quick else 200) * ctx.scale):
+        run_pipe(ctx, batch, P.gen_case(rng))
     batch.flush()
     G.assert_overlay_in_use(ctx.overlay)
     shutil.rmtree(ctx.workdir(), ignore_errors=True)
